@@ -19,6 +19,7 @@ func init() {
 			c.run("C07-R4", "GUARD-DOM: MkdirAll only on the not-exist edge; existing non-directory is an error", c07R4)
 			c.run("C07-R5", "GUARD-DOM: reported name = name joined into the created path", c07R5)
 			c.run("C07-R6", "GUARD-DOM: resume truncation only for a pre-existing non-empty file; O_TRUNC only under the truncate flag", c07R6)
+			c.run("C07-S1", "shared with C09-V/C09-D: every element below the fresh top-level name is a single path element (a '..' below it would leave the fresh name and land on existing files)", func(c *Ctx) { c09Validators(c); c09Decoder(c) })
 		})
 }
 
